@@ -18,10 +18,20 @@ int __exc;   /* C: no exceptions; kept for the harness generator */
 int g_read_n, g_read_max, g_calls; void *g_read_handle; char g_bytes[N_MAX + 1]; char *g_read_buf;
 int __g2c_nondet_int(void); char __g2c_nondet_char(void);
 /* void reader(void *handle, char *buf, int *len, int maxsize): delivers g_read_n bytes (any values but NUL -- flex scans C strings) */
+#ifdef TOK_LONG_LINE
+char g_first_last;   /* the last byte of the full first chunk (not a line feed: the line goes on) */
+#endif
 void reader_stub(void *handle, char *buf, int *len, int maxsize)
 {
   g_calls++; g_read_handle = handle; g_read_max = maxsize; g_read_buf = buf;
   __CPROVER_assert(maxsize >= 0 && __CPROVER_w_ok(buf, (size_t)maxsize + 1), "the reader may write maxsize bytes and the caller one terminator");
+#ifdef TOK_LONG_LINE
+  if (g_calls == 1)
+  { /* a full chunk in the middle of a line: maxsize bytes, none of them NUL, the last one not a line feed */
+    for (int k = 0; k < 1023; ++k) buf[k] = 'a';
+    buf[maxsize - 1] = g_first_last; *len = maxsize; return;
+  }
+#endif
   for (int k = 0; k < N_MAX; ++k) if (k < g_read_n) buf[k] = g_bytes[k];
   *len = g_read_n;
 }
@@ -34,8 +44,20 @@ __CPROVER_requires(INPUT_STATE(g_read_n, g_bytes[0], g_bytes[1], g_bytes[2]))
 __CPROVER_requires(SET_EQ(scanner->reader, reader_stub))
 /* the scanner as yylex_init leaves it: no buffer stack yet */
 __CPROVER_requires(SET_EQ(GUTS->yy_buffer_stack, 0) && SET_EQ(GUTS->yy_buffer_stack_top, 0) && SET_EQ(GUTS->yy_buffer_stack_max, 0))
+#ifdef TOK_LONG_LINE
+__CPROVER_requires(INPUT_STATE(g_first_last))
+__CPROVER_requires(g_read_n >= 0 && g_read_n <= 2 && g_first_last != 0 && g_first_last != '\n')
+#endif
 __CPROVER_requires(g_read_n <= N_MAX && g_bytes[0] != 0 && g_bytes[1] != 0 && g_bytes[2] != 0 && g_calls == 0)
 __CPROVER_assigns()
+#ifdef TOK_LONG_LINE
+/* a full chunk that does not end the line is continued: the reader is asked again and the scanner gets the line in one piece */
+PROP(C01, C13) __CPROVER_ensures(g_calls == 2 && g_read_max == 1023 && g_read_handle == scanner->handle)
+PROP(C13) __CPROVER_ensures(RET != 0 && RET->yy_buf_size == 1023 + g_read_n && RET->yy_ch_buf[0] == 'a' && RET->yy_ch_buf[1021] == 'a' && RET->yy_ch_buf[1022] == g_first_last &&
+                            (g_read_n <= 0 || RET->yy_ch_buf[1023] == g_bytes[0]) && (g_read_n <= 1 || RET->yy_ch_buf[1024] == g_bytes[1]) && RET->yy_ch_buf[1023 + g_read_n] == 0 && RET->yy_ch_buf[1024 + g_read_n] == 0)
+PROP(C13) __CPROVER_ensures(RET->yy_is_our_buffer == 1 && RET->yy_at_bol == 1 && RET->yy_buf_pos == RET->yy_ch_buf)
+;
+#else
 /* the reader is asked once, for at most 1023 bytes, with the scanner's own handle */
 PROP(C01, C13) __CPROVER_ensures(g_calls == 1 && g_read_max == 1023 && g_read_handle == scanner->handle)
 /* no byte: no buffer */
@@ -46,3 +68,4 @@ PROP(C13) __CPROVER_ensures(g_read_n > 0 ==> (RET != 0 && RET->yy_buf_size == g_
 PROP(C13) __CPROVER_ensures(g_read_n > 0 ==> (RET->yy_is_our_buffer == 1 && RET->yy_at_bol == 1 && RET->yy_fill_buffer == 0 && RET->yy_input_file == 0 &&
                             GUTS->yy_buffer_stack != 0 && GUTS->yy_buffer_stack[GUTS->yy_buffer_stack_top] == RET))
 ;
+#endif
